@@ -173,14 +173,14 @@ class ProcessModel:
 
         mixture = getattr(Mixtures, process_frame["mixture"].iloc[0])
 
-        if pandas.isna(process_frame["permeate_temperature"].iloc[0]):
-            permeate_temperature = None
-        else:
-            permeate_temperature = process_frame["permeate_temperature"].iloc[0]
-        if pandas.isna(process_frame["permeate_pressure"].iloc[0]):
-            permeate_pressure = None
-        else:
-            permeate_pressure = process_frame["permeate_pressure"].iloc[0]
+        permeate_temperature = [
+            None if pandas.isna(p_t) else p_t
+            for p_t in process_frame["permeate_temperature"]
+        ]
+        permeate_pressure = [
+            None if pandas.isna(p_p) else p_p
+            for p_p in process_frame["permeate_pressure"]
+        ]
 
         if (
             process_frame["partial_flux_1"].isna().mean() == 0
